@@ -3,7 +3,7 @@ Deterministic sweep over system configurations x models x event histories, each
 run through the real ovniemu built from the tree; all .prv/.pcf/.row files are
 parsed and validated independently."""
 import os, itertools, json, glob
-from lib.common import Ctx, Build, Scratch, InfraError, pmap, REPO
+from lib.common import Ctx, Build, Scratch, InfraError, pmap, REPO, plan_of
 from lib import emusrv, catalog, pv, obs
 from lib.emusrv import Ev, i32, i64, u32
 
@@ -222,6 +222,8 @@ def validate_outputs(td, spec, hist, flags, last_time):
 
 def run(prop, tier):
     ctx = Ctx("C13", tier, "model_checking")
+    tier = plan_of("C13", tier)
+    ctx.cov["plan"] = tier
     scratch = Scratch("C13")
     try:
         build = Build()
